@@ -597,7 +597,7 @@ def run(ctx):
     ctx.stream("pow.setcompact.grid", [f"core.setcompact {n}" for n in grid],
                nontrivial=lambda ln, out: out.startswith("ok"))
     ctx.stream("pow.setcompact", [f"core.setcompact {n}" for n in rnd], nontrivial=lambda ln, out: out.startswith("ok"))
-    ctx.stream("pow.work", [f"core.work {n}" for n in grid + rnd[:2000] if not core_set_compact(n)[1]])
+    ctx.stream("pow.work", [f"core.work {n}" for n in grid + rnd[:2000]])
     targets = [rand_target(rng) for _ in range(ctx.n(3000, 200000))]
     targets += [0, 1, 0x7F, 0x80, 0xFF, 0x100, 0x7FFF, 0x8000, 0x7FFFFF, 0x800000, 0x800001, 0xFFFFFF, 0x1000000,
                 U256 - 1, 1 << 255, (1 << 255) - 1, 0xFFFF << 208, (1 << 224) - 1]
@@ -620,9 +620,8 @@ def run(ctx):
              "limit": rng.choice([0x1D00FFFF, 0x207FFFFF])}
         ctx.check("pow.core", w, nontrivial=not core_set_compact(n)[2])
         ctx.check("pow.canonical", {"bits": n}, nontrivial=canonical_bits(n))
-        neg = core_set_compact(n)[1]
-        # Core credits a header whose bits are negative with no work; btclib's block_work answers the masked target's
-        ctx.check("pow.work", {"bits": n}, key="block_work.negative_bits_credited" if neg else None)
+        # Core's GetBlockProof is 0 for negative / overflowing / zero targets: block_work raises exactly there
+        ctx.check("pow.work", {"bits": n}, key="block_work.vs_core", nontrivial=core_block_proof(n) != 0)
     for v in targets[: ctx.n(4000, 100000)]:
         ctx.check("pow.roundtrip", {"target": str(v)}, nontrivial=v != 0)
     canon = [int.from_bytes(pw.bits_from_target(v.to_bytes(32, "big")), "big") for v in targets[:3000]]
